@@ -16,8 +16,37 @@ mod util;
 
 use cases::Sink;
 
+/// a `log` sink that formats every record: the arguments of the crate's log macros are evaluated (a panic or
+/// a side effect inside one shows), at Trace level.  Off with VERIF_NO_LOG=1.
+struct FormatAll;
+static FORMAT_ALL: FormatAll = FormatAll;
+static LOG_BYTES: std::sync::atomic::AtomicU64 = std::sync::atomic::AtomicU64::new(0);
+impl log::Log for FormatAll {
+    fn enabled(&self, _: &log::Metadata) -> bool {
+        true
+    }
+    fn log(&self, record: &log::Record) {
+        use std::fmt::Write;
+        struct Count(u64);
+        impl Write for Count {
+            fn write_str(&mut self, s: &str) -> std::fmt::Result {
+                self.0 += s.len() as u64;
+                Ok(())
+            }
+        }
+        let mut c = Count(0);
+        let _ = write!(c, "{}", record.args());
+        LOG_BYTES.fetch_add(c.0, std::sync::atomic::Ordering::Relaxed);
+    }
+    fn flush(&self) {}
+}
+
 fn main() {
     std::panic::set_hook(Box::new(|_| {}));
+    if std::env::var("VERIF_NO_LOG").map(|v| v != "1").unwrap_or(true) {
+        let _ = log::set_logger(&FORMAT_ALL);
+        log::set_max_level(log::LevelFilter::Trace);
+    }
     let args: Vec<String> = std::env::args().collect();
     match args.get(1).map(|s| s.as_str()) {
         Some("gen") => {
@@ -70,6 +99,7 @@ fn main() {
                     std::process::exit(2);
                 }
             }
+            sink.tag("bytes_of_log_output_formatted", LOG_BYTES.load(std::sync::atomic::Ordering::Relaxed));
             let skipped = treeck::ENTAIL_SKIPPED.with(|c| c.get());
             if skipped > 0 {
                 sink.tag("entailment_checks_skipped_as_too_large", skipped);
